@@ -36,6 +36,96 @@ pub struct Case {
     pub entries: Vec<(u16, u16)>,
     pub max_nodes: Option<u8>,
     pub steps: Vec<Step>,
+    /// wire-engine companion (real handlers): a request of a peer whose record does not match the
+    /// address it sends from must still reach the application and be answered. When present the
+    /// service part is not run.
+    #[serde(default)]
+    pub wire: Option<WireReq>,
+}
+
+#[derive(Clone, Debug, PartialEq, Eq, Hash, Serialize, Deserialize)]
+pub struct WireReq {
+    /// what the requester's record advertises: 0 another ip and port, 1 another port, 2 another ip, 3 nothing
+    pub nat_kind: u8,
+    /// what the answering node knows of the requester: 0 its current record, 1 an older one, 2 nothing
+    pub know: u8,
+    /// 0 PING, 1 FINDNODE, 2 TALK
+    pub body: u8,
+    pub requests: u8,
+}
+
+async fn run_wire(c: &WireReq, rep: &mut CaseReport) -> Option<(String, String)> {
+    use crate::engines::wire::{AppMode, Body, Know, Op, WireConfig, World};
+    use crate::engines::wire_interp::act;
+    use discv5::verif::HandlerOut;
+    let know = [Know::Current, Know::Older, Know::Nothing][(c.know % 3) as usize];
+    let cfg = WireConfig {
+        n_peers: 1,
+        retries: 1,
+        filter: false,
+        wru_mode: vec![AppMode::Immediate; 4],
+        wru_know: vec![know; 4],
+        resp_mode: vec![AppMode::Immediate; 4],
+        nodes_packets: 1,
+        seqs: vec![2; 4],
+        nat_peers: vec![1],
+        nat_kind: c.nat_kind % 4,
+        dual_records: false,
+        foreign_enr_answer: vec![],
+        v_session_timeout_ms: None,
+        v_session_capacity: None,
+    };
+    let mut w = World::new(cfg).await;
+    rep.class("wire-companion");
+    rep.class(format!("wire-companion/requester-record-kind-{}", c.nat_kind % 4));
+    let body = [Body::Ping, Body::FindNode(1), Body::Talk(5)][(c.body % 3) as usize];
+    for _ in 0..c.requests.clamp(1, 3) {
+        let ev0 = w.events.len();
+        act(&mut w, &Op::Submit { from: 1, to: 0, body, with_record: true });
+        w.settle().await;
+        w.step += 1;
+        let mut guard = 0;
+        while !w.pool.is_empty() && guard < 60 {
+            guard += 1;
+            let idx = w.pool.remove(0);
+            w.deliver_logged(idx);
+            w.settle().await;
+            w.step += 1;
+        }
+        let peer_addr = w.nodes[1].addr;
+        let id = w.submitted.last().map(|s| s.id.clone());
+        let asked = w.events[ev0..].iter().any(|e| e.node == 0 && matches!(&e.out, HandlerOut::Request(a, r) if a.socket_addr == peer_addr && Some(&r.id) == id.as_ref()));
+        let answered = w.events[ev0..].iter().any(|e| e.node == 1 && matches!(&e.out, HandlerOut::Response(_, r) if Some(&r.id) == id.as_ref()));
+        if !asked || !answered {
+            let failed = w.events[ev0..].iter().find_map(|e| match &e.out {
+                HandlerOut::RequestFailed(i, err) if e.node == 1 && Some(i) == id.as_ref() => Some(format!("{err:?}")),
+                _ => None,
+            });
+            return Some((
+                "pong/request-of-peer-with-mismatching-record-not-answered".into(),
+                format!(
+                    "a peer sending from {peer_addr} whose record advertises {:?} sent {body:?}; nothing was lost on the way, but the request {} and the peer got {} (its request ended with {failed:?})",
+                    w.nodes[1].enr.udp4_socket(),
+                    if asked { "reached the application" } else { "never reached the answering node's application" },
+                    if answered { "its answer" } else { "no answer" }
+                ),
+            ));
+        }
+        for e in &w.events[ev0..] {
+            if let (1, HandlerOut::Response(_, r)) = (e.node, &e.out) {
+                if let ResponseBody::Pong { ip, port, .. } = &r.body {
+                    if *ip != peer_addr.ip() || port.get() != peer_addr.port() {
+                        return Some(("pong/wrong-observed-address".into(), format!("PONG names {ip}:{port}, the request came from {peer_addr}")));
+                    }
+                }
+            }
+        }
+    }
+    rep.nontrivial = true;
+    if let Some(p) = crate::runner::take_panic() {
+        return Some((format!("panic-in-task/{}", p.split(':').take(2).collect::<Vec<_>>().join(":")), p));
+    }
+    None
 }
 
 pub struct C14;
@@ -311,7 +401,7 @@ impl Property for C14 {
             prop_oneof![3 => Just(None), 1 => (1u8..=20).prop_map(Some)],
             proptest::collection::vec(step, 1..8),
         )
-            .prop_map(|(dual, entries, max_nodes, steps)| Case { dual, entries, max_nodes, steps });
+            .prop_map(|(dual, entries, max_nodes, steps)| Case { dual, entries, max_nodes, steps, wire: None });
         // a large configured maximum and a large table: answers of many packets
         let big_step = (id(), req_strategy(), any::<bool>()).prop_map(|(id, requester, all)| Step::FindNode { ds: if all { (240..=256u64).collect() } else { vec![256, 255, 254, 253, 252] }, id, requester });
         let big = (
@@ -320,11 +410,18 @@ impl Property for C14 {
             (46u8..=120).prop_map(Some),
             proptest::collection::vec(big_step, 1..3),
         )
-            .prop_map(|(dual, entries, max_nodes, steps)| Case { dual, entries, max_nodes, steps });
-        prop_oneof![30 => ordinary, 1 => big].boxed()
+            .prop_map(|(dual, entries, max_nodes, steps)| Case { dual, entries, max_nodes, steps, wire: None });
+        let wire = (0u8..4, 0u8..3, 0u8..3, 1u8..=3).prop_map(|(nat_kind, know, body, requests)| Case { dual: false, entries: vec![], max_nodes: None, steps: vec![], wire: Some(WireReq { nat_kind, know, body, requests }) });
+        prop_oneof![60 => ordinary, 2 => big, 1 => wire].boxed()
     }
     fn run(case: &Case) -> CaseReport {
         let mut rep = CaseReport::default();
+        if let Some(wc) = &case.wire {
+            if let Some((s, d)) = run_blocking(run_wire(wc, &mut rep)) {
+                rep.fail(s, d);
+            }
+            return rep;
+        }
         let v = run_blocking(run(case, &mut rep));
         if let Some((s, d)) = v {
             rep.fail(s, d);
@@ -332,7 +429,7 @@ impl Property for C14 {
         rep
     }
     fn rule() -> String {
-        "a real Discv5 service with a scripted handler (IPv4 or dual stack, max_nodes_response default 16 or 1..20; one case in 31: 46..120 with a table of 70..129 records and requests for 5 or 17 distances, i.e. answers of up to ~40 packets) whose table holds 0..59 signed pool records of 100..300 bytes (60% exactly 300 bytes) in the reachable buckets; 1..7 injected requests: FINDNODE with distance lists that are empty / duplicated / unsorted / contain 0, 256, values > 256 (assertion-free) / up to 400 entries / the d,d+1,d-1 lists lookups generate, request ids of 0..8 bytes, requester = a stored node, a stranger, an IPv6 stranger; PING with arbitrary enr_seq from a normal source or source port 0; local record changes in between. Oracle on the HandlerIn::Response values the service emits: N1 id, destination, total = number of packets >= 1; N2 local record iff 0 requested, every other record is the stored record of a table entry at a requested distance, never the requester's, no duplicates, at most max_nodes_response, at least min(eligible, max[-1]); N3 each packet, encoded with the real message codec and wrapped as a message datagram with the real packet codec, is <= 1280 bytes; G1 exactly one PONG with the request id, the current local seq and the observed source ip/port; none for port 0. Non-trivial = >=4 records of >=280 bytes forcing a split, or distance 0 together with other distances.".into()
+        "a real Discv5 service with a scripted handler (IPv4 or dual stack, max_nodes_response default 16 or 1..20; one case in 31: 46..120 with a table of 70..129 records and requests for 5 or 17 distances, i.e. answers of up to ~40 packets) whose table holds 0..59 signed pool records of 100..300 bytes (60% exactly 300 bytes) in the reachable buckets; 1..7 injected requests: FINDNODE with distance lists that are empty / duplicated / unsorted / contain 0, 256, values > 256 (assertion-free) / up to 400 entries / the d,d+1,d-1 lists lookups generate, request ids of 0..8 bytes, requester = a stored node, a stranger, an IPv6 stranger; PING with arbitrary enr_seq from a normal source or source port 0; local record changes in between. Oracle on the HandlerIn::Response values the service emits: N1 id, destination, total = number of packets >= 1; N2 local record iff 0 requested, every other record is the stored record of a table entry at a requested distance, never the requester's, no duplicates, at most max_nodes_response, at least min(eligible, max[-1]); N3 each packet, encoded with the real message codec and wrapped as a message datagram with the real packet codec, is <= 1280 bytes; G1 exactly one PONG with the request id, the current local seq and the observed source ip/port; none for port 0. One case in 63 is a wire-engine companion (real handlers): a peer whose record advertises another ip and port / another port / another ip / nothing than the address it sends from, known to the answering node with its current record, an older one or not at all, sends 1..3 PING / FINDNODE / TALK requests over a loss-free wire: each must reach the answering node's application as coming from the observed address and be answered. Non-trivial = >=4 records of >=280 bytes forcing a split, or distance 0 together with other distances.".into()
     }
     fn assumptions() -> Vec<String> {
         vec![
